@@ -138,6 +138,37 @@ def check_db(p, m, route, case, label):
     p['outcomes'][f'{label}/{route}/' + ('exact' if not probs else 'differs')] += 1
     if probs:
         p['violations'].append(violation(PID, 'sql-differs', dict(case, route=route), observed=probs[:6], detail=probs[0][:400]))
+        return
+    # "for every database": also the one this database becomes after it has been rendered once and then edited in place
+    # (pk flags flipped so that the pk layout changes class, a table moved to another schema, a column renamed and re-typed)
+    m2 = asm_clone(m)
+    t0, d0 = m2['tables'][0], db.tables[0]
+    if len(t0['columns']) >= 2:
+        for k in (0, 1):
+            t0['columns'][k]['pk'] = not t0['columns'][k]['pk']
+            d0.columns[k].pk = t0['columns'][k]['pk']
+        t0['columns'][-1]['name'] = 'renamed col'
+        d0.columns[-1].name = 'renamed col'
+        for i in t0['indexes']:
+            for sj in i['subjects']:
+                if sj[0] == 'col' and sj[1] not in [c['name'] for c in t0['columns']]:
+                    sj[1] = 'renamed col'
+    t0['schema'] = 'moved'
+    d0.schema = 'moved'
+    try:
+        stmts2 = ddl.read(db.sql)
+        probs2 = sqlref.compare_c03(m2, stmts2)
+    except Exception as e:
+        probs2 = [f'after in-place edits: {type(e).__name__}: {e}']
+    p['evaluations'] += 1
+    p['outcomes'][f'{label}/{route}/after-edit/' + ('exact' if not probs2 else 'differs')] += 1
+    if probs2:
+        p['violations'].append(violation(PID, 'sql-differs-after-edit', dict(case, route=route), observed=probs2[:6],
+                                         detail='after rendering once, flipping pk of the first two columns, renaming the last column and moving the table to schema "moved": ' + probs2[0][:300]))
+
+
+def asm_clone(m):
+    return A.clone(m)
 
 
 def model_of(case):
